@@ -134,6 +134,12 @@ Theorem report_lists_enforced : forall code op ngen idx,
   (forall res, forallb res (enforced_generic op ++ enforced_specific op) = forallb res (sem_list op) && forallb res (sup_list op)) /\
   sup_list op = filter (fun c => negb (mem c (assoc op sup_exceptions))) sup_generic ++ assoc op sup_specific.
 Proof. exact ConstraintsProofs.report_lists_enforced. Qed.
+Theorem report_values_are_enforced_values : forall c prefix printed enforced,
+  In (c, prefix, printed, enforced) value_lists ->
+  doc_of c = prefix ++ join_comma printed /\ dedup_adjacent printed = enforced.
+Proof. exact ConstraintsProofs.report_values_are_enforced_values_each. Qed.
+Theorem report_value_lists_nonempty : value_lists <> [].
+Proof. exact (proj2 ConstraintsProofs.report_values_are_enforced_values). Qed.
 Theorem report_rows_are_the_supported_builtins : pairs_eqb rows_head expected_rows = true.
 Proof. exact (proj2 report_rows_check). Qed.
 Theorem npu_candidate_iff_report : forall res code op ngen idx,
@@ -149,5 +155,6 @@ Print Assumptions constraint_matches_doc_bias_40bit.
 Print Assumptions constraint_matches_doc_resize.
 Print Assumptions report_lists_enforced.
 Print Assumptions supported_is_conjunction.
+Print Assumptions report_values_are_enforced_values.
 Print Assumptions drivers_match_traced.
 Print Assumptions npu_candidate_iff_report.
